@@ -85,10 +85,14 @@ class Builder:
         for name, width, kind in b["sigs"]:
             if kind in ("in", "out", "inout", "port", "plain"):
                 s = self.port_sig(name, width, kind)
+            elif kind in ("plain_din", "plain_dout"):
+                # not declared as a port (internal visibility), though its direction attribute is set
+                from hdl21.signal import PortDir
+                s = h.Signal(name=name, width=width, direction=PortDir.INPUT if kind == "plain_din" else PortDir.OUTPUT)
             elif kind == "role_ab":
-                s = h.Signal(name=name, width=width, src=B.roles.A, dest=B.roles.B)
+                s = h.Signal(name=name, width=width, src=self._role(B, b, "A"), dest=self._role(B, b, "B"))
             elif kind == "role_ba":
-                s = h.Signal(name=name, width=width, src=B.roles.B, dest=B.roles.A)
+                s = h.Signal(name=name, width=width, src=self._role(B, b, "B"), dest=self._role(B, b, "A"))
             else:
                 raise ValueError(kind)
             B.add(s)
@@ -99,7 +103,7 @@ class Builder:
             S = self.bundle(sidx)
             kw = {}
             if role is not None and S.roles is not None:
-                kw["role"] = getattr(S.roles, role)
+                kw["role"] = self._role(S, self.spec["bundles"][sidx], role)
             bi = self._flip(S, kw, flipped, via)
             B.add(bi, name=name)
         self._bundles[k] = B
@@ -113,8 +117,15 @@ class Builder:
         B = self.bundle(bidx)
         kw = {"port": bool(port)}
         if role is not None and B.roles is not None:
-            kw["role"] = getattr(B.roles, role)
+            kw["role"] = self._role(B, self.spec["bundles"][bidx], role)
         return self._flip(B, kw, flipped, via)
+
+    def _role(self, B, bspec, name):
+        """The role `name` of bundle B: the RoleSet's own object, or (roles == "fresh") a new, equal Role object each time -
+        as roles re-created by RoleSet.from_list or written out literally are"""
+        if bspec.get("roles") == "fresh":
+            return self.h.Role(name=name)
+        return getattr(B.roles, name)
 
     def _flip(self, B, kw, flipped, via):
         """Create an instance of bundle B whose effective flip state is `flipped`, written as `via` says:
